@@ -78,7 +78,9 @@ def find(lst: list[dict], key: str, value: Any) -> dict | None:
         cmp = mappyfile.find(d["layers"], "name", "Layer2")
         assert cmp["name"] == "Layer2"
     """
-    return next((item for item in lst if item[key.lower()] == value), None)
+    key = key.lower()
+    # items lacking the key are skipped (and, for Mapfile dicts, not auto-populated)
+    return next((item for item in lst if key in item and item[key] == value), None)
 
 
 def findall(lst: list[dict], key: str, value: Any) -> list[dict]:
@@ -136,7 +138,11 @@ def findall(lst: list[dict], key: str, value: Any) -> list[dict]:
         layers = mappyfile.findall(d["layers"], "group", "test")
         assert len(layers) == 2
     """
-    return [item for item in lst if item[key.lower()] and item[key.lower()] in value]
+    key = key.lower()
+    # a list of values can be supplied - a single value is matched for equality (not as a substring)
+    values = value if isinstance(value, (list, tuple, set)) else [value]
+    # items lacking the key are skipped (and, for Mapfile dicts, not auto-populated)
+    return [item for item in lst if key in item and item[key] in values]
 
 
 def findunique(lst, key):
